@@ -12,6 +12,9 @@ import os, json, itertools
 import vf
 
 HFILES = ["common/common_test.go.tmpl", "flood/flood_net_test.go"]
+# VERIF_SELFTEST=corrupt-replay | corrupt-trace : self-test of the binding (a falsified expected state / logged field
+# must make the check report a violation, whatever the property)
+SELFTEST = os.environ.get("VERIF_SELFTEST", "")
 INVS = ("TypeOK ProcessedOnce ForwardedOnce MsgBound PathsSimple ChainsSimple PathsValid Converged MetricIsHops "
         "NearestPreferred Refreshed HopLimit CountFits DecodedIntact")
 
@@ -47,7 +50,7 @@ def tla_links(links):
 
 def base(name, agents, links, **kw):
     c = dict(name=name, agents=agents, links=links, initups=[links], exits=[["a"]], routeids=["r1"], announcers=agents,
-             maxann=1, hopsset=[16], cntmod=100, conn=0, disc=0, exp=0, dup=0, age=0)
+             maxann=1, hopsset=[16], cntmod=100, conn=0, disc=0, exp=0, dup=0, age=0, replay=True)
     c.update(kw)
     return c
 
@@ -80,7 +83,9 @@ def model(ctx, cfgs, workers=4, emit=True):
     """Ideal spec on every configuration; returns [(cfg, TLCResult)]."""
     out = []
     for c in cfgs:
-        r = ctx.tlc("Flood", "MC_%s.cfg" % c["name"], files={"MC_%s.cfg" % c["name"]: cfg_text(c, emit=emit)}, workers=workers,
+        # replay=False: too big to emit / replay every transition; model checking only
+        r = ctx.tlc("Flood", "MC_%s.cfg" % c["name"], files={"MC_%s.cfg" % c["name"]: cfg_text(c, emit=emit and c.get("replay", True))},
+                    workers=workers if c.get("replay", True) else 8,
                     name="ideal-" + c["name"], timeout=1500)
         if r.violated:
             raise vf.Infra("ideal Flood spec violates %s on configuration %s (specification error, see out/logs)" % (
@@ -161,6 +166,8 @@ def replay(ctx, runs):
     cfgs, npaths, nedges_tot, nstates = [], 0, 0, 0
     samples = []
     for c, r in runs:
+        if not c.get("replay", True):
+            continue
         if not r.edges:
             raise vf.Infra("no edges emitted for %s" % c["name"])
         paths, nnodes, nedges = cover(r.edges)
@@ -181,6 +188,17 @@ def replay(ctx, runs):
             p = max(paths, key=lambda p: len(p["steps"]))
             samples.append({"cfg": c["name"], "init_up": p["init"]["up"], "exit": [a for a, v in p["init"]["loc"].items() if v],
                             "path": [compact(s["a"]) for s in p["steps"][:14]]})
+    if SELFTEST == "corrupt-replay":
+        # binding self-test: one expected post-state is falsified (a sequence number in a table entry, or a counter)
+        done = False
+        for g in cfgs:
+            for p in g["paths"]:
+                for st in p["steps"]:
+                    ents = [e for v in st["t"]["tbl"].values() for e in v]
+                    if ents and not done:
+                        ents[0]["seq"] += 1
+                        st["alts"] = []
+                        done = True
     inp = os.path.join(ctx.work, "flood_paths.json")
     vf.write_json(inp, {"cfgs": cfgs})
     g = ctx.gotest("flood", HFILES, "^TestZZVFloodReplay$", env={"ZZV_IN": inp}, timeout=1500)
@@ -271,6 +289,16 @@ def traces(ctx, test, env, name, invs=TRACE_INVS):
     summ = g.of("summary")
     if not summ:
         raise vf.Infra("trace harness produced no summary:\n" + g.out[-3000:])
+    if SELFTEST == "corrupt-trace":
+        # binding self-test: one logged field is falsified (the metric of a stored route in one Deliver event)
+        lines = open(out).read().splitlines()
+        for i in range(len(lines) // 2, len(lines)):
+            ev = json.loads(lines[i])
+            if ev.get("ev") == "Deliver" and ev["st"]["tbl"]:
+                ev["st"]["tbl"][0]["m"] += 1
+                lines[i] = json.dumps(ev)
+                break
+        open(out, "w").write("\n".join(lines) + "\n")
     v = _validate(ctx, out, name, invs, ())
     return {"summary": summ[0], "preds": g.of("pred"), "records": g.records, "v": v, "file": out}
 
@@ -360,7 +388,7 @@ def report(ctx, pid, rep=None, trs=(), scale=None):
             dev, site = classify(mm)
             owner = DEV_OWNER.get(dev) if dev else FIELD_OWNER.get(mm.get("field"))
             mm["classified"] = dev
-            if owner != pid:
+            if owner != pid and not SELFTEST:
                 ctx.add("mismatches_owned_by_other_properties")
                 continue
             n += 1
@@ -376,7 +404,7 @@ def report(ctx, pid, rep=None, trs=(), scale=None):
         v = tr["v"]
         if not v["accepted"]:
             dev = explain(ctx, tr["file"], "explain")
-            owner = DEV_OWNER.get(dev) if dev else pid     # an unexplained rejection is reported by whoever sees it
+            owner = DEV_OWNER.get(dev) if (dev and not SELFTEST) else pid     # an unexplained rejection is reported by whoever sees it
             if owner == pid:
                 n += 1
                 if v["violated"] and v["violated"] != "rejected":
